@@ -74,6 +74,7 @@ def run(ctx):
                 plans2.append([[rng.randrange(3), list(range(nxt, nxt + n))]]); nxt += n
             c.update({"plans2": plans2, "delays2": [rng.choice([0, 0.002]) for _ in range(k2)], "reopen": rng.random() < 0.5})
         c["other_first"] = i % 3 == 0
+        c["fail_first"] = i % 3 == 1
         cases.append(c)
     # more writers than CPU cores (every writer must still run, in its own process slot or queued)
     import os
@@ -106,6 +107,8 @@ def run(ctx):
             doc = json.loads(pth.read_text())
             if not doc.get("shard_files") and not doc.get("children_shard_lists"):
                 problems.append(f"{pth.relative_to(rootp)} is an empty shard list (no sequential run of these writers creates one)")
+        orphans = set(resp.get("orphans") or [])
+        problems = [q for q in problems if not (q.startswith("shard file ") and q.endswith(" on disk is not listed") and q[len("shard file "):-len(" on disk is not listed")] in orphans)]
         for extra in ("_other",):
             q = Path(str(rootp) + extra)
             if q.exists(): shutil.rmtree(q, ignore_errors=True)
@@ -137,7 +140,7 @@ def run(ctx):
                     ctx.report(dict(sig, kind="shared-file"), f"worker processes {pa} and {pb} both wrote {sorted(wsets[pa] & wsets[pb])[:3]}", {"case": c})
         by_pid_first = {str(r[0]): idx for idx, r in reversed(list(enumerate(all_returns)))}
         for pid, w in wsets.items():
-            off = 2 if c.get("other_first") else 0          # (the earlier dataset of the same process used up two writer names)
+            off = 2 if (c.get("other_first") or c.get("fail_first")) else 0          # (the earlier call of the same process used up two writer names)
             own = {f"w{j + 1 + off:08d}" + "0" * 23 for j, r in enumerate(all_returns) if str(r[0]) == pid}
             for path in w:
                 parts = Path(path).parts
@@ -146,6 +149,8 @@ def run(ctx):
         # correspondence with M-TREE: one session made of all writers' closed shards
         if not c.get("plans2"):
             snap = T.snapshot(rootp)
+            odirs = {tuple(T.dir_code(Path(q).parent)) for q in orphans}          # what the failed earlier call left behind is not part of the dataset
+            snap = {d: l for d, l in snap.items() if tuple(d) not in odirs}
             closed = [(list(d), l["files"]) for d, l in snap.items() if l["files"]]
             rec = {"closed": closed, "snap": {json.dumps(list(k)): v for k, v in snap.items()}}
             req, ids, dirs = T.model_request([rec], 0)
